@@ -28,6 +28,21 @@ Theorem C17_stream_preserved : forall c steps ops,
 Proof. exact stream_preserved. Qed.
 Print Assumptions C17_stream_preserved.
 
+(* The body yields exactly the original byte sequence followed by the original terminal
+   condition: after ANY history without Close (probes and reads of any sizes in any order), reading
+   on with any non-empty destination until a terminal condition comes back returns exactly the
+   bytes not yet returned, and then the original terminal condition (fuel: one read per byte and
+   per zero-length read of the stream suffices). *)
+Theorem C17_drain_exact : forall c steps ops k fuel,
+  c_nil c = false -> existsb is_close ops = false -> 0 < k ->
+  length (steps_bytes steps) + empties steps < fuel ->
+  let outs := fst (run c ops (init c steps)) in
+  let s := snd (run c ops (init c steps)) in
+  read_bytes (reads_before_close false c ops outs) ++ fst (drain fuel k s) = steps_bytes steps /\
+  snd (drain fuel k s) = Some (steps_term steps).
+Proof. exact drain_all. Qed.
+Print Assumptions C17_drain_exact.
+
 (* ... and the wrappers add no empty reads of their own: a Read with room for a byte returns
    (0, nil) only when the underlying stream itself made a zero-length read. With
    C17_stream_preserved: reading on yields every original byte and then the terminal condition. *)
